@@ -25,6 +25,8 @@ def menu():
             acts.append(["c", j, sub])
         acts.append(["x", j, [["raise"]]])
         acts.append(["x", j, [["c", 3, [["raise"]]]]])
+    acts.append(["ci", 1, [["c", 3, []]]])   # sub-call made with ignore_result()
+    acts.append(["ci", 2, [["r", "u1"]]])
     acts.append(["x", 1, [["c", 3, []], ["raise_nm"]]])   # the sub-call ends un-memoized after calling something itself
     acts.append(["b", 2, [[["c", 3, [["r", "u3"]]], ["raise_nm"]], []]])
     acts.append(["cc", 1, [["c", 3, []]]])
@@ -43,7 +45,7 @@ def model(i, plan, table):
     table[k] = rec
     for act in plan:
         t = act[0]
-        if t in ("c", "x", "cc"):
+        if t in ("c", "x", "cc", "ci"):
             times = 2 if t == "cc" else 1
             stop = False
             for _ in range(times):
